@@ -3,11 +3,13 @@
 cd "$(dirname "$0")/.."
 tier=${1:-quick}; shift
 props=${@:-C01 C02 C03 C04 C05 C06 C07 C08 C09 C10 C11 C12 C13 C14 C15 C16 C17 C18 C19 C20}
+bad=0
 for p in $props; do
   s=$(date +%s)
   out=$(./check $p --tier $tier 2>&1); rc=$?
   e=$(( $(date +%s) - s ))
   v=$(echo "$out" | grep -c "^VIOLATION"); k=$(echo "$out" | grep -c "^KNOWN-FINDING")
   echo "$p exit=$rc violations=$v known=$k ${e}s"
-  [ $rc -ne 0 ] && echo "$out" | tail -5
+  if [ $rc -ne 0 ]; then bad=1; echo "$out" | tail -5; fi
 done
+exit $bad
